@@ -223,8 +223,8 @@ def run(ctx):
                 if bad:
                     rule.fail('%s/%s::%s/ctor' % (b.nid, adt.split('::')[-1], var), mirq.site(b, bb),
                               'float constructor applied as a function to an unchecked value: %s' % '; '.join(bad))
-    r1.need(5)
-    r2.need(3)
+    r1.need(3)
+    r2.need(2)
     # the checked constructor itself must exist and be guarded
     fl = mir.find('xvalue::XValue::float')
     if len(fl) != 1:
